@@ -323,3 +323,19 @@ Example c09_sel_nonvacuous :
   | _ => False
   end.
 Proof. vm_compute. repeat split. Qed.
+
+(* F-C09-1: the keepBlobs reduction of PlanPrune is wrong in the presence of ignorePacks.
+   Pack 1 = {1,2,3} present; pack 2 = {1,4} missing but still indexed; used = {1,2}; plan: repack 1,
+   ignore 2.  The reduction drops blob 1 because of the entry (2,1): the plan is invalid (blob 1 would
+   be lost), although the repository is consistent.  Skipping ignorePacks repairs it. *)
+Definition f1_R0 : repo := mkR [(1, [1; 2; 3])] [(1, [(1, 1); (1, 2); (1, 3)]); (2, [(2, 1); (2, 4)])].
+Definition f1_ents : list (N * N) := [(1, 1); (1, 2); (1, 3); (2, 1); (2, 4)].
+Lemma keep_reduction_refuted :
+  exists R0 used ents rmrep ignore ob,
+    Consistent R0 used /\
+    valid_planb R0 used (mkPl [] rmrep (rmrep ++ ignore) (keep_blobs used ents rmrep) ob) = false /\
+    valid_planb R0 used (mkPl [] rmrep (rmrep ++ ignore) (keep_blobs_fixed used ents rmrep ignore) ob) = true.
+Proof.
+  exists f1_R0, [1; 2], f1_ents, [1], [2], [1; 2]. split; [|split; vm_compute; reflexivity].
+  apply consistentb_iff. vm_compute. reflexivity.
+Qed.
